@@ -178,6 +178,26 @@ func vfC12Execute(t *testing.T, seed int64, tr *vfh.Trace) {
 		}
 		callers = append(callers, c)
 	}
+	if rnd.Intn(6) == 0 {
+		// "waiters": a limited connection only; several NewStream calls wait for a direct one; some give up
+		// (deadline) before it appears, the others must still be served when it does
+		evs = []vfC12ConnEv{{At: ms(rnd.Intn(80)), Kind: "add", Name: "w0", Limited: true},
+			{At: ms(1400 + rnd.Intn(600)), Kind: "add", Name: "wd", Limited: false}}
+		if rnd.Intn(3) == 0 {
+			evs = append(evs, vfC12ConnEv{At: ms(900 + rnd.Intn(300)), Kind: "flash", Name: "wf"})
+		}
+		callers = nil
+		for i, n := 0, 2+rnd.Intn(3); i < n; i++ {
+			c := vfC12Caller{Name: fmt.Sprintf("c%d", i+1), Kind: "newstream", Start: ms(150 + rnd.Intn(300)), NoDial: rnd.Intn(2) == 0}
+			switch {
+			case i == 0:
+				c.Timeout = ms(200 + rnd.Intn(500)) // gives up first
+			case rnd.Intn(3) == 0:
+				c.Timeout = ms(4000 + rnd.Intn(2000))
+			}
+			callers = append(callers, c)
+		}
+	}
 	if rnd.Intn(3) == 0 {
 		// "hooked": a limited connection is there first; one NewStream caller that may not use it gets an
 		// event (a direct connection appears, ...) at one of the swarm's own context look-ups for that call
